@@ -220,6 +220,10 @@ func headerCase(r *Rng, rep *Report, t *tmp, c int) (string, string) {
 		switch r.Intn(9) {
 		case 0:
 			v := r.Pick([]int64{0, 1, 2, h.num - 1, h.num + 1, 1<<61 + 2, 1<<63 - 1, -1, 1 << 60, (fsz - 29) / 8, (fsz-29)/8 + 1, -1 << 63, 1<<61 + h.num})
+			if r.Chance(30) {
+				// numOffsets*8 wraps around to the original table size: the frame-size check passes
+				v = r.Pick([]int64{1<<61 + h.num, 1<<62 + h.num, 3<<61 + h.num})
+			}
 			h.num = v
 			muts = append(muts, fmt.Sprintf("numOffsets=%d", v))
 			if r.Chance(60) && v >= 0 && v < 1<<28 {
@@ -700,6 +704,14 @@ func writerCase(r *Rng, rep *Report, t *tmp, c int) (string, string) {
 		}
 		if ret != -1 {
 			rep.Fail(c, "WriteAndClose returned an error and a size", text)
+		}
+		// C08 at the file level: whatever a failed write left behind must not pass readHeader
+		if st, err := os.Stat(path); err == nil && st.Size() > 0 {
+			_, tclass, _ := readHeaderObserved(path)
+			rep.Count("writer.torn." + strings.SplitN(tclass, ":", 2)[0])
+			if tclass == "ok" || strings.HasPrefix(tclass, "panic") {
+				rep.Fail(c, "the file left by a failed write is accepted by readHeader (or makes it panic): "+tclass, text)
+			}
 		}
 		return head + fmt.Sprintf("(WErr %d)", cl), text + fmt.Sprintf(" -> err%d", cl)
 	}
